@@ -323,6 +323,53 @@ func script(seed int64, idx int) {
 			}
 			vlib.CCount("reobservation_requests", 1)
 			vlib.CCount("reobserved_between_two_depths", 1)
+		case x == 14 && !allowFaults && rng.Intn(2) == 0: // re-observation of a not-yet-deep transaction; right after the receipt answer the chain reorganises the tx away and the head jumps
+			cl := []uint8{1, 15, 200}[rng.Intn(3)]
+			var tx *evmsim.Tx
+			var blk *evmsim.Block
+			armed := true
+			sim.Mutate("mine-for-racing-reobservation", func(s *evmsim.Sim) {
+				var hb [32]byte
+				rng.Read(hb[:])
+				tx = &evmsim.Tx{Hash: ethcommon.Hash(hb), Status: 1, Note: "core", Logs: []*evmsim.LogSpec{mkLog("core", cl)}}
+				if md == "bsc" {
+					blk = s.Include(tx, s.Head+1)
+					s.AdvanceHead(blk.Number)
+				} else {
+					blk = s.Include(tx, s.Head+2)
+				}
+				s.AfterReceipt = func(s *evmsim.Sim, h ethcommon.Hash) {
+					if armed && h == tx.Hash && s.ReobserveWindow {
+						armed = false
+						s.Version++
+						s.ReplaceBlock(blk.Number, false) // the transaction is gone from the canonical chain
+						s.Head = blk.Number + 300
+					}
+				}
+			})
+			txs = append(txs, tx)
+			e := &expectation{tx: tx, log: tx.Logs[0], block: blk, note: fmt.Sprintf("cl=%d, orphaned right after the receipt answer of a re-observation, head +300", cl)}
+			exp[tx.Hash] = e
+			tr(fmt.Sprintf("mine core tx=%x cl=%d in block %d (not deep enough); reobserve; right after the receipt answer the block is replaced without the tx and the head jumps by 300", tx.Hash[:4], cl, blk.Number))
+			vlib.CCount("txs_core", 1)
+			h.Quiesce(2, 20*time.Second)
+			sim.WithLock(func() { sim.ReobserveWindow = true })
+			ok := h.Reobserve(tx.Hash, 25*time.Second)
+			sim.WithLock(func() { sim.ReobserveWindow = false; sim.AfterReceipt = nil })
+			if !ok {
+				vlib.CFinding("reobserve:request-not-handled-within-watchdog", map[string]interface{}{"script": desc, "trace": trace})
+				return
+			}
+			for _, x := range all() {
+				if x.tx.Block == nil {
+					x.block = nil
+				} else if x.tx.Block != x.block {
+					x.block = x.tx.Block
+				}
+			}
+			vlib.CCount("reobservation_requests", 1)
+			vlib.CCount("reorg_right_after_receipt_answer", 1)
+			vlib.CCount("reorgs", 1)
 		case x == 9: // mined but not yet at the depth the watcher reads (e.g. not finalized): re-observed right away
 			ahead := uint64(1 + rng.Intn(5))
 			cl := cls[rng.Intn(len(cls))]
